@@ -8,7 +8,7 @@
    the projection of the very list of invocations whose results it assembles, so
    "what the callable received" and "what was assembled" cannot drift apart. *)
 From Coq Require Import List Arith Bool String.
-From PF Require Import Lib.ListX Lib.Chunks.
+From PF Require Import Lib.ListX Lib.Chunks Lib.PySlice.
 Import ListNotations.
 Local Open Scope string_scope.
 
@@ -45,12 +45,22 @@ Definition series_tolist (d : pd_dtype) (raw : list cell) : list cell := map (se
 (* ser_list = [str(x) for x in ser.tolist()] *)
 Definition ser_list (cells : list cell) : list string := map render cells.
 
-(* the argument lists: everything at once when batch_size is None, else
-   ser_list[i:i+batch_size] for i in range(0, len(ser_list), batch_size) *)
+(* the mini-batch loop of both mappers, as written:
+       for i in range(0, len(ser_list), batch_size):  ... ser_list[i:i + batch_size]
+   `range_up 0 n k` is Python's range(0, n, k) (Lib/PySlice.v), `tslice` is list slicing.
+   batch_size = 0: Python's range() raises ValueError before any call is made; here the
+   range is empty, i.e. no call either, and both forward functions below then return None
+   (torch_cat0 [] / hd_error []), which is the raise.
+   That this loop produces the consecutive chunks of at most batch_size is a THEOREM
+   (Proofs/EmbeddersProofs.v batch_slices_chunks), not the definition. *)
+Definition batch_slices {A} (k : nat) (l : list A) : list (list A) :=
+  map (fun i => tslice l i (i + k)) (range_up 0 (List.length l) k).
+
+(* the argument lists: everything at once when batch_size is None, else the loop above *)
 Definition arg_lists (batch_size : option nat) (cells : list cell) : list (list string) :=
   match batch_size with
   | None => [ser_list cells]
-  | Some k => chunks k (ser_list cells)
+  | Some k => batch_slices k (ser_list cells)
   end.
 
 (* torch.cat(list, dim=0): RuntimeError on an empty list *)
